@@ -57,7 +57,8 @@ def base_directions(seed, nbands):
     return [rodrigues(ct, st, a, d) for d in dirs]
 
 # ----------------------------------------------------------------------------- case generation: turning bands
-TB_TYPES = {0: 'nugget', 1: 'exponential', 2: 'spherical', 3: 'gaussian', 4: 'cubic', 5: 'sincard', 7: 'matern', 10: 'stable'}
+TB_TYPES = {0: 'nugget', 1: 'exponential', 2: 'spherical', 3: 'gaussian', 4: 'cubic', 5: 'sincard', 6: 'besselj', 7: 'matern', 10: 'stable',
+            11: 'linear', 12: 'power', 13: 'order1_gc', 14: 'spline_gc', 15: 'order3_gc', 16: 'order5_gc'}
 CORREC2 = {1: 1, 2: 3, 3: 2, 4: 840, 5: 2}     # square of 'correc' per (particularised) structure; matern/stable: by parameter
 
 def gen_sill(rng, nvar):
@@ -102,6 +103,27 @@ def gen_tb_case(rng, quick):
         structs.append([t, dy(rng_), dy(param), ranges, angles, [dy(S[i][j]) for i in range(nvar) for j in range(nvar)]])
     means = [dy(Fraction(rng.randint(-40, 40), 4)) for _ in range(nvar)] if rng.random() < .6 else []
     return [1, seed, nbtuba, nbsimu, ndim, nvar, db, [structs, means]]
+
+# every branch of the switch (type) of _simulatePoint / _simulateGrid / _initializeSeedBands (after _particularCase)
+TB_BRANCHES = [(1, 1), (2, 1), (4, 1), (3, 1), (5, 1), (6, 2), (7, Fraction(1, 4)), (7, Fraction(3, 8)), (7, Fraction(1, 2)), (7, Fraction(3, 2)),
+               (10, Fraction(1, 2)), (10, Fraction(3, 4)), (10, 1), (10, Fraction(3, 2)), (10, 2), (11, 1), (12, 1), (12, Fraction(1, 2)), (13, 1), (14, 1), (15, 1), (16, 1)]
+def gen_branch_cases(rng):
+    """one unmasked 2-D or 3-D grid per branch (half of them rotated, some anisotropic): feeds the assembly check AND the grid/point twins,
+    so that a scale / parameter handed differently to the 1-D process on a grid and on points is seen for EVERY structure"""
+    out = []
+    for t, par in TB_BRANCHES:
+        ndim = rng.choice([2, 2, 3])
+        nx = [rng.randint(2, 4) for _ in range(ndim)]
+        dx = [dy(Fraction(rng.randint(2, 8), 4)) for _ in range(ndim)]
+        x0 = [dy(Fraction(rng.randint(-20, 20), 4)) for _ in range(ndim)]
+        ang = [dy(rng.choice([30, 45, -20, 120])) if (k == 0 or ndim == 3) else dy(0) for k in range(ndim)] if rng.random() < .5 else []
+        ranges = []; angles = []
+        if rng.random() < .4:
+            ranges = [dy(Fraction(rng.randint(4, 24), 2)) for _ in range(ndim)]
+            if rng.random() < .5: angles = [dy(rng.choice([30, 60, 110])) if (k == 0 or ndim == 3) else dy(0) for k in range(ndim)]
+        st = [t, dy(Fraction(rng.randint(4, 24), 2)), dy(par), ranges, angles, [dy(rng.choice([1, 2, Fraction(9, 4)]))]]
+        out.append([1, rng.randint(1, 2**31 - 1), rng.choice([2, 3, 5]), 1, ndim, 1, [1, nx, dx, x0, ang, []], [[st], []]])
+    return out
 
 def fl(p): return None if p == [] else float(undy(p))
 
@@ -308,7 +330,7 @@ def check_directions(ctx, case, res, model_cases, model_meta, idx):
             for ib in range(nbtuba):
                 cd = [fl(v) for v in codirs[ibs]]
                 u = base[ibs]
-                if hasrange <= 0:
+                if hasrange == 0:        # nugget: the loop 'continue's (hasRange() is -1 for the structures defined by a slope, which go on)
                     exp_ang = u; exp_scale = 1.
                 elif faniso:
                     T = [[fl(v) for v in row] for row in tinv]
@@ -323,7 +345,7 @@ def check_directions(ctx, case, res, model_cases, model_meta, idx):
                     exp_ang = u; exp_scale = fl(scale)
                 # grid path: t00 / dxp / dyp / dzp are the band abscissa of the origin node and its increments along the GRID axes
                 # (TurningBandDirection::projectGrid through the grid rotation; divided by the scale for the dilution structures)
-                if db[0] == 1 and hasrange > 0 and len(res) > 10:
+                if db[0] == 1 and hasrange != 0 and len(res) > 10:
                     coords = [[fl(v) for v in col] for col in res[10]]
                     nxs = db[1]
                     div = cd[3] if ty in (2, 4) else 1.
@@ -343,7 +365,7 @@ def check_directions(ctx, case, res, model_cases, model_meta, idx):
                 ctx.count(None, False)
                 err = max(abs(cd[k] - exp_ang[k]) for k in range(3))
                 if err > 1e-9 or abs(cd[3] - exp_scale) > 1e-9 * (1 + abs(exp_scale)):
-                    rule = 'anisotropy' if (hasrange > 0 and faniso) else 'van-der-corput-rotation'
+                    rule = 'anisotropy' if (hasrange != 0 and faniso) else 'van-der-corput-rotation'
                     ctx.violation(what + ':' + rule, 'band %d (simulation %d, structure %d): direction %r scale %r, expected %r scale %r' % (ibs, isimu, is_, cd[0:3], cd[3], exp_ang, exp_scale),
                                   {'case': sx_str(case), 'band': ibs, 'impl': cd[0:4], 'expected': exp_ang + [exp_scale]}); found = True
                 ibs += 1
@@ -1871,8 +1893,9 @@ def run(ctx):
         print('ERROR: the C14 hook (verif_tb_trace_*) is not in the library built from %s: apply /verif/hooks/C14.patch (this is not a verdict on the property)' % REPO, flush=True)
         sys.exit(3)
     # ---- turning bands
-    ntb = 70 if quick else 900
-    cases = [c for c in load_corpus(ctx) if c and c[0] == 1] + [gen_tb_case(rng, quick) for _ in range(ntb)]
+    ntb = 55 if quick else 900
+    cases = [c for c in load_corpus(ctx) if c and c[0] == 1] + gen_branch_cases(rng) + [gen_tb_case(rng, quick) for _ in range(ntb)]
+    if not quick: cases += [c for _ in range(6) for c in gen_branch_cases(rng)]
     nq = 8 if quick else 60
     quad = [gen_quad_case(rng) for _ in range(nq)]
     nch = 40 if quick else 400
@@ -1941,10 +1964,25 @@ def run(ctx):
                     vg, vp = fl(rg[2][a][j][x]), fl(rp[2][a][j][x])
                     if (vg is None) != (vp is None): worst = float('inf'); at = (a, j, x, vg, vp)
                     elif vg is not None and abs(vg - vp) > worst: worst = abs(vg - vp); at = (a, j, x, vg, vp)
+        # band tables of the twin runs (hook trace): first band whose spread values differ between the grid and the point path
+        firstband = None
+        pt_recs = {tuple(r[0][1:5]): r for r in rp[3] if r[0][0] != 2}
+        for r in rg[3]:
+            if r[0][0] == 2: continue
+            q = pt_recs.get(tuple(r[0][1:5]))
+            if q is None: continue
+            tg = [fl(v) for v in r[4]]; tp = [fl(v) for v in q[4]]
+            sc_t = max([abs(v) for v in tg + tp] + [1.])
+            if any(abs(a_ - b_) > 1e-8 * sc_t for a_, b_ in zip(tg, tp)) or fl(r[1]) != fl(q[1]):
+                firstband = {'ivar': r[0][1], 'isimu': r[0][2], 'structure': r[0][3], 'band': r[0][4], 'correc_grid': fl(r[1]), 'correc_points': fl(q[1]),
+                             'tab_grid': tg[:4], 'tab_points': tp[:4]}
+                break
         scale_v = max([abs(fl(v)) for a in rg[2] for col in a for v in col if fl(v) is not None] + [1.])
+        if firstband is not None and worst <= 1e-8 * scale_v: worst = float('inf'); at = (firstband['isimu'], 0, 0, firstband['tab_grid'], firstband['tab_points'])
         if worst > 1e-8 * scale_v:
-            ctx.violation('simtub:grid-vs-points', 'the same nodes simulated as a grid and as isolated points (same seed) differ: simulation %d variable %d node %d: grid %r points %r' % at,
-                          {'grid_case': sx_str(cases[i]), 'point_case': sx_str(tc), 'at': at}); found_input = True
+            stn = ', '.join('%s(param %s)' % (TB_TYPES.get(st_[0], st_[0]), undy(st_[2])) for st_ in cases[i][7][0])
+            ctx.violation('simtub:grid-vs-points', ('structures [%s]: ' % stn) + 'the same nodes simulated as a grid and as isolated points (same seed) differ: simulation %d variable %d node %d: grid %r points %r' % at,
+                          {'grid_case': sx_str(cases[i]), 'point_case': sx_str(tc), 'at': at, 'first_differing_band': firstband}); found_input = True
     mf = write_cases(ctx, 'model', mcases)
     rc_m, model = run_model(ctx, runner, mf)
     if len(model) != len(mcases):
